@@ -64,4 +64,20 @@ def pack (cap : Nat) (xs : List UInt8) : Nat :=
   (List.range (xs.length + 1)).foldl
     (fun best k => if rleLen (xs.take k) ≤ cap then k else best) 0
 
+/-- Cutting a piece of input into blocks by repeating `pack` (what happens to one
+N·100000-byte chunk in the default mode, and to the whole input with
+`--sequential`).  `fuel` bounds the number of blocks; `blocksOf` supplies
+`xs.length`, which suffices because every block takes at least one byte when
+`cap ≥ 1` (`Props.C04.pack_pos`). -/
+def blocks (cap : Nat) : Nat → List UInt8 → List (List UInt8)
+  | 0, _ => []
+  | fuel + 1, xs =>
+    if xs.isEmpty then []
+    else
+      let k := pack cap xs
+      if k = 0 then [] else xs.take k :: blocks cap fuel (xs.drop k)
+
+def blocksOf (cap : Nat) (xs : List UInt8) : List (List UInt8) :=
+  blocks cap xs.length xs
+
 end LbzVerif.Spec
